@@ -28,3 +28,132 @@ func vpC10_O1() {
 	}
 	vpAssert("Hash.Equal is exact byte equality", a.Equal(b) == ref)
 }
+
+func init() {
+	vpHarnesses["vpC10_O3"] = vpC10_O3
+	vpHarnesses["vpC10_O4"] = vpC10_O4
+}
+
+func vpCopyEvent(e *Event) *Event {
+	return &Event{Index: e.Index, E: e.E, ParentHash: append(Hash{}, e.ParentHash...)}
+}
+
+// vpTransported simulates an update that arrived over the wire: the signed
+// accumulator carries no cached plaintext, the events are fresh objects.
+func vpTransported(u *Update) *Update {
+	evs := make([]*Event, len(u.Events))
+	for i, e := range u.Events {
+		evs[i] = vpCopyEvent(e)
+	}
+	return &Update{
+		SignedAccumulator: &SignedAccumulator{Data: u.SignedAccumulator.Data, PKCounter: u.SignedAccumulator.PKCounter},
+		Events:            evs,
+	}
+}
+
+// C10-O3: every single corruption of an authentic update (events 0..n of a
+// history built by the issuer's real code) is rejected by Update.Verify and
+// by Witness.Update, which leaves the witness unchanged; the uncorrupted
+// transported update is accepted.
+func vpC10_O3() {
+	n := vpParam("nevents", 2)
+	h := vpBuildHistory(n)
+	other, otherSk := vpKeys(1, 1, 1024, true)
+	_ = other
+	wit := h.witness("E", 0, 0)
+	upd := vpTransported(h.update(0, n))
+	k := vpChoose("k", n+1) // the event the corruption targets
+	corrupt := vpChoose("corruption", 14)
+	switch corrupt {
+	case 0: // no corruption
+	case 1: // another revoked value
+		e2 := vpSmallPrime("e_other")
+		vpAssume(e2.Cmp(upd.Events[k].E) != 0)
+		upd.Events[k].E = e2
+	case 2: // re-indexed event
+		upd.Events[k].Index += 1 + uint64(vpChoose("shift", 2))
+	case 3: // one byte of a parent hash changed
+		pos := vpChoose("pos", 34)
+		b := vpByte("newbyte")
+		vpAssume(b != upd.Events[k].ParentHash[pos])
+		upd.Events[k].ParentHash[pos] = b
+	case 4: // truncated parent hash (still a well-formed multihash only if the length byte is adapted)
+		upd.Events[k].ParentHash = upd.Events[k].ParentHash[:33]
+		if vpBool("fixlen") {
+			upd.Events[k].ParentHash[1] = 31
+		}
+	case 5: // extended parent hash
+		upd.Events[k].ParentHash = append(upd.Events[k].ParentHash, vpByte("extra"))
+		if vpBool("fixlen") {
+			upd.Events[k].ParentHash[1] = 33
+		}
+	case 6: // dropped event that is not the first
+		vpAssume(k >= 1)
+		upd.Events = append(append([]*Event{}, upd.Events[:k]...), upd.Events[k+1:]...)
+	case 7: // swapped neighbours
+		vpAssume(k >= 1)
+		upd.Events[k-1], upd.Events[k] = upd.Events[k], upd.Events[k-1]
+	case 8: // duplicated event
+		dup := append(append([]*Event{}, upd.Events[:k+1]...), upd.Events[k:]...)
+		upd.Events = dup
+	case 9: // invalid ECDSA signature
+		upd.SignedAccumulator.Data = vpxCorrupt(upd.SignedAccumulator.Data)
+	case 10: // wrong key counter
+		upd.SignedAccumulator.PKCounter++
+	case 11: // accumulator signed by another issuer key
+		sacc, err := h.accs[n].Sign(otherSk)
+		vpAssume(err == nil)
+		upd.SignedAccumulator = &SignedAccumulator{Data: sacc.Data, PKCounter: h.pk.Counter}
+	case 12: // authentic but older accumulator substituted
+		vpAssume(n >= 1)
+		sacc, err := h.accs[n-1].Sign(h.sk)
+		vpAssume(err == nil)
+		upd.SignedAccumulator = &SignedAccumulator{Data: sacc.Data, PKCounter: sacc.PKCounter}
+	case 13: // inserted bogus event at the end
+		bogus := &Event{Index: upd.Events[n].Index + 1, E: vpSmallPrime("e_bogus"), ParentHash: upd.Events[n].hash()}
+		upd.Events = append(upd.Events, bogus)
+	}
+	_, verr := upd.Verify(h.pk)
+	oldU, oldSacc := wit.U, wit.SignedAccumulator
+	// Witness.Update gets its own transported copy (verification marks lists as verified)
+	uerr := wit.Update(h.pk, upd)
+	if corrupt == 0 {
+		vpAssert("authentic transported update verifies", verr == nil)
+		vpAssert("authentic transported update updates the witness", uerr == nil && vpWitnessValidAgainst(wit, h.accs[n], h.pk))
+		return
+	}
+	vpAssert("corrupted update is rejected by Update.Verify", verr != nil)
+	vpAssert("corrupted update is rejected by Witness.Update", uerr != nil)
+	vpAssert("rejected update leaves the witness unchanged", wit.U == oldU && wit.SignedAccumulator == oldSacc)
+}
+
+// C10-O4: Update.Prepend merges older events only if the merged chain
+// verifies against the signed accumulator; on error the update is unchanged;
+// no index combination makes it panic.
+func vpC10_O4() {
+	n := vpParam("nevents", 3)
+	h := vpBuildHistory(n)
+	i0 := vpChoose("i0", n+1)
+	upd := h.update(i0, n)
+	j0, j1 := vpChoose("j0", n+1), vpChoose("j1", n+1)
+	vpAssume(j0 <= j1)
+	evs := make([]*Event, 0, n+1)
+	for j := j0; j <= j1; j++ {
+		evs = append(evs, vpCopyEvent(h.events[j]))
+	}
+	bad := vpBool("corruptOlderEvent")
+	if bad {
+		e2 := vpSmallPrime("e_other")
+		vpAssume(e2.Cmp(evs[0].E) != 0)
+		evs[0].E = e2
+	}
+	oldEvents, oldFirst := upd.Events, upd.Events[0]
+	err := upd.Prepend(NewEventList(evs...))
+	if err != nil {
+		vpAssert("failed prepend leaves the update unchanged", len(upd.Events) == len(oldEvents) && upd.Events[0] == oldFirst)
+		return
+	}
+	vpAssert("accepted prepend yields a chain that verifies", NewEventList(upd.Events...).Verify(h.accs[n]) == nil)
+	vpAssert("accepted prepend starts at the older events", upd.Events[0].Index == uint64(j0))
+	vpAssert("prepend of corrupted older events is refused", !bad)
+}
